@@ -27,6 +27,12 @@ def generate(rng, tier):
         nc = rng.choice([2, 3, 8, 64]) if s is not None else rng.choice([2, 5, 16, 64])
         probe = [str((1 + s + i) % (1 << 64)) for i in range(nc)] if s is not None else []
         cases.append({"op": "mh_streams", "n_chains": nc, "seed": None if s is None else str(s), "probe_seeds": probe})
+    # a proposal object that has already been sampled from before the sampler is built from it
+    for s in [None, 42, rng.getrandbits(64)]:
+        for k in [1, 5]:
+            nc = rng.choice([2, 4, 8])
+            probe = [str((1 + s + i) % (1 << 64)) for i in range(nc)] if s is not None else []
+            cases.append({"op": "mh_streams", "n_chains": nc, "seed": None if s is None else str(s), "probe_seeds": probe, "pre_used": k})
     for kind, f in [("mh", "f64"), ("mh", "f32"), ("hmc", "f32"), ("hmc", "f64"), ("nuts", "f32"), ("nuts", "f64")]:
         for s, nc in [(None, rng.choice([2, 4, 9])), (42, rng.choice([2, 4, 9])), (rng.getrandbits(64), rng.choice([2, 4, 9])),
                       (MAXU, 5), (MAXU - 1, 4), (rng.getrandbits(64), 64), (rng.getrandbits(64), rng.randint(33, 48))]:
